@@ -198,7 +198,7 @@ Definition py_arr_mul2 := py_arr_zip Qmult.
 Definition is_none {A} (o : option A) : bool := match o with None => true | Some _ => false end.
 Definition py_ebin {E} (f : E -> E -> E) (a b : option E) : res E :=
   match a, b with Some x, Some y => Ok (f x y) | _, _ => Raise TypeError end.
-Definition py_eun {E} (f : E -> E) (a : option E) : res E :=
+Definition py_eun {A B} (f : A -> B) (a : option A) : res B :=
   match a with Some x => Ok (f x) | None => Raise TypeError end.
 (* list(np.roll(np.array(l, dtype=object), dt, axis=0)): entry i of the result is entry (i - dt) mod n of l *)
 Definition py_roll {A} (l : list A) (dt : Z) : list A :=
@@ -292,3 +292,10 @@ Definition mat_div_s (m : list (list Q)) (q : Q) : list (list Q) := map (map (fu
 (* m @ v *)
 Definition py_matvec (m : list (list Q)) (v : list Q) : res (list Q) :=
   if forallb (fun row => Nat.eqb (List.length row) (List.length v)) m then Ok (map (fun row => arr_dot row v) m) else Raise ValueError.
+
+(* [x for x in xs if cond(x)] with a condition that can raise *)
+Fixpoint py_filter {X} (f : X -> res bool) (xs : list X) : res (list X) :=
+  match xs with
+  | [] => Ok []
+  | x :: r => b <- f x ;; ys <- py_filter f r ;; Ok (if b then x :: ys else ys)
+  end.
